@@ -272,9 +272,12 @@ class NetworkxGraph(AbstractGraph):
     ) -> None:
         for module in aliases:
             if module not in module_names:
+                # names are concatenated, not formatted: a name may be an instance of a str subclass whose
+                # format() differs from its value (members of a 'class Modules(str, Enum)' format as 'Modules.X')
                 raise KeyError(
-                    f"An alias was specified for module {module},"
-                    f" but the module does not exist."
+                    "An alias was specified for module "
+                    + module
+                    + ", but the module does not exist."
                 )
 
     def _create_label(
@@ -287,7 +290,7 @@ class NetworkxGraph(AbstractGraph):
             most_specific_aliased_module = next(
                 module
                 for module in sorted_aliased_modules
-                if module_name == module or module_name.startswith(f"{module}.")
+                if module_name == module or module_name.startswith(module + ".")
             )
             alias = module_name[len(most_specific_aliased_module) :]
             alias = aliases[most_specific_aliased_module] + alias
